@@ -101,6 +101,35 @@ Proof.
     destruct (sim_step _ _ _ _ _ W Rx HJ Hp Es) as (W' & R' & J'). eapply IH; eauto.
 Qed.
 
+(* ---- the decomposition of every record into its components ------------------------ *)
+
+(* total = own part + delegations, and every stake is the floor of its own token: the total stake is the SUM
+   of the floors, not the floor of the total token *)
+Definition decomposed (x : xval) : Prop :=
+  v_token (fst x) = v_stoken (fst x) + dsum d_token (snd x) /\
+  v_stake (fst x) = v_sstake (fst x) + dsum d_stake (snd x) /\
+  v_sstake (fst x) = v_stoken (fst x) / stake_unit /\
+  forall e, In e (snd x) -> d_stake e = d_token e / stake_unit.
+
+(* every operation that meets the callers' discipline keeps every record decomposed ... *)
+Lemma decomposition_preserved s o : J s -> a_pre s o = true ->
+  forall a x, aget (xs (core (a_step s o))) a = Some x -> decomposed x.
+Proof.
+  intros HJ Hp a x Hx. destruct (J_step s o HJ Hp) as ((V & _) & _).
+  destruct (g_vals _ V _ _ Hx) as (_ & _ & _ & _ & H5 & H6 & H7 & (_ & H8) & _).
+  refine (conj H6 (conj H7 (conj H5 _))). intros e He. apply (H8 e He).
+Qed.
+
+(* ... and for an update the discipline is exactly "adjust the totals by the deltas of the own part" *)
+Lemma upd_ok_deltas old u : upd_ok old u = true ->
+  u_token u - v_token old = u_stoken u - v_stoken old /\
+  u_stake u - v_stake old = u_sstake u - v_sstake old /\
+  u_sstake u = u_stoken u / stake_unit.
+Proof.
+  unfold upd_ok. intros H. repeat (apply andb_prop in H as [H ?]).
+  repeat match goal with E : Z.eqb _ _ = true |- _ => apply Z.eqb_eq in E end. lia.
+Qed.
+
 (* ---- from the value-level invariant to the executable property -------------------- *)
 
 Definition absx (y : val * list (option dfrom)) : xval := (norm (fst y), stripd (snd y)).
